@@ -275,7 +275,7 @@ def gen(rng, shard, nshards, n_ed, n_p256, table, rms):
         if fm is not None:
             Q, inp, hv, (i, j) = fm
             cases.append(case1("s p256 vtrunc %s %s %d %s" % (W.P256.encode_compressed(Q).hex(), inp.hex(), rm, hv.hex()), expect_p256(Q, inp, rm, hv, None),
-                               ["false-match-p256", "kept-bits-wrap-above-L", "walk-reaches-neutral-beyond-first-batch", "p256-xseq:n=199", "p256-xseq:n=200", "p256-xseq:n=0", "p256-xseq:passes-through-infinity", "p256-xseq:P0=P1", "p256-xseq:P0-infinite", "structured-s:kept-bits-all-zero", "structured-s:hidden-part-zero", "structured-s:hidden-part-all-ones", "structured-s:baby-index-zero",
+                               ["false-match-p256", "s0=0-and-V-infinite", "kept-bits-wrap-above-L", "walk-reaches-neutral-beyond-first-batch", "p256-xseq:n=199", "p256-xseq:n=200", "p256-xseq:n=0", "p256-xseq:passes-through-infinity", "p256-xseq:P0=P1", "p256-xseq:P0-infinite", "structured-s:kept-bits-all-zero", "structured-s:hidden-part-zero", "structured-s:hidden-part-all-ones", "structured-s:baby-index-zero",
                     "structured-s:giant-index-max", "false-match-p256:" + ("j=0" if j == 0 else "j>0")], "constructed 48-bit table hit"))
     # ---- Ed25519 ----
     for it in range(n_ed):
@@ -488,6 +488,19 @@ def gen(rng, shard, nshards, n_ed, n_p256, table, rms):
         inp = overwrite_last_bits(prepared, rm, rng.choice(["zero", "ones", "random"]), rng)
         cases.append(case1("s p256 vtrunc %s %s %d %s" % (pk.hex(), inp.hex(), rm, hv2.hex()), expect_p256(Q, inp, rm, hv2, standard),
                            ["p256", "complete", "structured-s", "structured-s:" + tag], "p256 completeness on structured s"))
+    # kept bits of s all zero together with h*G + r*Q = infinity (the key owner, or whoever chose Q = -(h/r)G, can arrange it): the
+    # search "finds" s = 0, which is not a signature -- nothing may be returned
+    for it in range(max(2, n_p256 // 12)):
+        d = rng.randrange(1, N)
+        Q = Cw.mulgen(d)
+        rm = rng.choice(rms)
+        r2 = Cw.mulgen(rng.randrange(1, N))[0] % N
+        if r2 == 0:
+            continue
+        hv2 = ((-r2 * d) % N).to_bytes(32, "big")
+        inp = overwrite_last_bits(r2.to_bytes(32, "big") + bytes(32), rm, rng.choice(["zero", "ones", "random"]), rng)
+        cases.append(case1("s p256 vtrunc %s %s %d %s" % (Cw.encode_compressed(Q).hex(), inp.hex(), rm, hv2.hex()), expect_p256(Q, inp, rm, hv2, None),
+                           ["p256", "corrupt", "s0=0-and-V-infinite"], "zero s candidate"))
     # the public x-only helpers the P-256 search is built on: to_x_affine_diff / x_sequence_vartime on P_i = (k0 + i*(k1-k0))*G, with
     # sequence lengths around the internal batch size, sequences that pass through the point at infinity, P0 = P1, P0 or P1 infinite
     for it in range(max(2, n_p256 // 8)):
